@@ -250,6 +250,35 @@ def _difference_index(body, gs, b, t):
     return (False, "no rejecting comparison of the minuend with W (the value the offset was derived from) dominates the index")
 
 
+SEARCHES = ("std::iter::Iterator::find", "std::iter::Iterator::any", "std::iter::Iterator::all", "std::iter::Iterator::position")
+
+
+def _elem_guards(body):
+    """(block after the test, sources of the tested vector): vectors whose elements were tested with find/any/all."""
+    out = []
+    for b, t in body.calls():
+        if (t["func"].get("declared") or "") in SEARCHES:
+            srcs = frozenset((r, tuple(p)) for (r, p) in body.deep_sources(t["args"][0], 3))
+            out.append((t["target"] if t.get("target") is not None else b, srcs))
+    return out
+
+
+def _item_tested_in_parent(ctx, fid):
+    """For the closure fid handed to an iterator adaptor: the guard of its parent that tested every element of the collection the
+    closure's item ranges over, before the closure was built (`ws.iter().find(|&&w| !assigned[w])` after `ws.iter().any(|&w| w >= n)`)."""
+    site = ctx.closure_item_sources(fid)
+    if not site or () not in site[1]:
+        return None
+    pb, m = site
+    rv = ctx.closure_site(fid)[1]
+    at = [b for b, blk in enumerate(pb.blocks) for st in blk["stmts"] if st["k"] == "assign" and st["rv"] is rv]
+    coll = frozenset((r, tuple(p)) for (r, p) in pb.deep_sources(m[()], 3))
+    for g in _elem_guards(pb):
+        if at and pb.dominates(g[0], at[0]) and g[0] != at[0] and (coll & g[1]):
+            return g
+    return None
+
+
 def rule_b3(ctx):
     res = RuleResult("B3", "index sites of the importer are dominated by a length / range test")
     root, ids = importer_bodies(ctx)
@@ -269,11 +298,7 @@ def rule_b3(ctx):
                         if r[0] == "call" and mir.last_seg(r[2] or "") == "len":
                             lt = body.term(r[1])
                             len_guards.append((gb, src_key(body, lt["args"][0]), c.get("val"), g["rv"]["op"]))
-        elem_guards = []  # vectors whose elements were tested with find/any/all
-        for b, t in body.calls():
-            if (t["func"].get("declared") or "") in ("std::iter::Iterator::find", "std::iter::Iterator::any", "std::iter::Iterator::all", "std::iter::Iterator::position"):
-                srcs = frozenset((r, tuple(p)) for (r, p) in body.deep_sources(t["args"][0], 3))
-                elem_guards.append((t["target"] if t.get("target") is not None else b, srcs))
+        elem_guards = _elem_guards(body)
         for b, t in body.calls():
             if t["func"].get("declared") not in ("std::ops::Index::index", "std::ops::IndexMut::index_mut") or body.blocks[b]["cleanup"]:
                 continue
@@ -301,6 +326,9 @@ def rule_b3(ctx):
                     res.ok({"function": fid, "site": site + "[var]", "verdict": "index compared in bb%d" % direct[0][0]})
                 elif elem:
                     res.ok({"function": fid, "site": site + "[elem]", "verdict": "all elements of the index vector tested (find/any/all) in bb%d" % elem[0][0]})
+                elif ikey and all(r == ("arg", 2) for (r, p) in ikey) and ctx.fns[fid]["kind"] == "closure" and _item_tested_in_parent(ctx, fid):
+                    res.ok({"function": fid, "site": site + "[item]", "verdict": "the closure's item ranges over a vector all of whose elements were tested before (bb%d of the parent)" %
+                            _item_tested_in_parent(ctx, fid)[0]})
                 elif computed:
                     verdict = _difference_index(body, gs, b, t)
                     if verdict is None:
@@ -452,6 +480,16 @@ def rule_b6(ctx):
     for b, t in body.calls():
         if t["func"].get("declared") == "std::ops::Index::index" and "Vec<bool>" in t["args"][0]["place"]["ty"] and not body.blocks[b]["cleanup"]:
             lookups.append((b, t))
+    # a lookup inside a predicate (`ws.iter().find(|&&w| !is_assigned[w])`) happens where the predicate is built and handed to the adaptor
+    for b, blk in enumerate(body.blocks):
+        if blk["cleanup"]:
+            continue
+        for st in blk["stmts"]:
+            cid = st["rv"].get("closure") if st["k"] == "assign" and st["rv"]["k"] == "aggregate" else None
+            if cid and ctx.has_fn(cid):
+                for cb_, ct in ctx.body(cid).calls():
+                    if ct["func"].get("declared") == "std::ops::Index::index" and "Vec<bool>" in ct["args"][0]["place"]["ty"]:
+                        lookups.append((b, ct))
     stores = [(b, t) for b, t in body.calls() if t["func"].get("declared") == "std::ops::IndexMut::index_mut" and "Vec<bool>" in t["args"][0]["place"]["ty"]]
     if not lookups or not stores:
         res.bad(Finding("B6", root, "no table of assigned wires",
